@@ -65,6 +65,42 @@ def template_kind(v: ast.expr) -> Tuple[str, bool, Optional[ast.expr]]:
 YAML_TYPES = {"bool": bool, "str": str, "strseq": list, "list": list, "Sequence": list, "dict": dict, "filename": str, "int": int}
 
 
+def _inline_views(fn: ast.AST, cfg_var: Optional[str]) -> ast.AST:
+    """A copy of `fn` in which locals that hold a lazy view of the configuration (`v = settings["output"]`, assigned once) are
+    written out where they are read, so that `v["k"].get()` is recognised as `settings["output"]["k"].get()`."""
+    import copy as _copy
+    if not cfg_var:
+        return fn
+    fn = _copy.deepcopy(fn)
+
+    def root(e):
+        while isinstance(e, ast.Subscript):
+            e = e.value
+        return e
+    stores: Dict[str, List[ast.AST]] = {}
+    for n in ast.walk(fn):
+        if isinstance(n, ast.Name) and isinstance(n.ctx, (ast.Store, ast.Del)):
+            stores.setdefault(n.id, []).append(n)
+    views: Dict[str, ast.expr] = {}
+    changed = True
+    while changed:
+        changed = False
+        for n in ast.walk(fn):
+            if isinstance(n, ast.Assign) and len(n.targets) == 1 and isinstance(n.targets[0], ast.Name) \
+                    and n.targets[0].id not in views and len(stores.get(n.targets[0].id, [])) == 1 \
+                    and isinstance(n.value, ast.Subscript) and isinstance(root(n.value), ast.Name) \
+                    and (root(n.value).id == cfg_var or root(n.value).id in views):
+                views[n.targets[0].id] = n.value
+                changed = True
+
+    class T(ast.NodeTransformer):
+        def visit_Name(self, node):
+            if isinstance(node.ctx, ast.Load) and node.id in views:
+                return self.visit(_copy.deepcopy(views[node.id]))
+            return node
+    return ast.fix_missing_locations(T().visit(fn)) if views else fn
+
+
 def rule_source_order(rep: Report, repo: Repo, rule: str) -> str:
     main = repo.func(MOD, "main")
     m = repo.module(MOD)
@@ -490,6 +526,7 @@ def rule_output_dir_resolution(rep: Report, repo: Repo, rule: str) -> None:
     for st in main.body:
         if isinstance(st, ast.Assign) and isinstance(st.value, ast.Call) and call_name(st.value).split(".")[-1] == "Configuration":
             cfg_var = norm(st.targets[0])
+    main = _inline_views(main, cfg_var)
     flag_var = None
     for i, st in enumerate(main.body):
         if isinstance(st, ast.If) and "relative_to_config" in norm(st.test) and cfg_var and cfg_var in norm(st.test) and ".get()" in norm(st.test):
